@@ -397,7 +397,33 @@ def case_eq(ctx, cfg):
                 if e is not None or bool(r):
                     ctx.fail("eq:polygon:moved-vertex", "==", {"polygon": name}, False, e if e is not None else bool(r))
                     return
+            # a vertex moved by 2^-20 (1e-6: a hundred times the library's tolerance, exactly representable), polygon
+            # listed in the same order, rotated, and reversed: not the same polytope
+            for label, order in (("same-order", list(range(n))), ("rotated", list(np.roll(range(n), 1))), ("reversed", list(range(n))[::-1]), ("reversed-rotated", list(np.roll(range(n), 2)[::-1]))):
+                for k in (0, n - 1):
+                    Vn = [list(map(float, V0[i])) for i in order]
+                    Vn[k][0] += 2.0**-20
+                    Bn = G.Polygon(*[G.Point(np.array(v + [1.0])) for v in Vn])
+                    for x, y, tag in ((A, Bn, "a==b"), (Bn, A, "b==a")):
+                        r, e = ctx.call(lambda: x == y)
+                        ctx.trace()
+                        ctx.state((name, emb, "nearly-equal", label, k, tag))
+                        if e is not None or bool(r):
+                            ctx.fail(f"eq:polygon:nearly-equal:{label}", "==", {"polygon": name, "embedding": emb, "listed": label, "moved_vertex": k, "by": 2.0**-20, "order": tag}, False, e if e is not None else bool(r))
+                            return
     elif kind == "segment":
+        for moved, rev in itertools.product((0, 1), (False, True)):
+            ends = [[0.0, 0.0, 1.0], [2.0, 1.0, 1.0]]
+            ends2 = [list(v) for v in ends]
+            ends2[moved][1] += 2.0**-20
+            if rev:
+                ends2 = ends2[::-1]
+            r, e = ctx.call(lambda: G.Segment(G.Point(np.array(ends[0])), G.Point(np.array(ends[1]))) == G.Segment(G.Point(np.array(ends2[0])), G.Point(np.array(ends2[1]))))
+            ctx.trace()
+            ctx.state(("segment", "nearly-equal", moved, rev))
+            if e is not None or bool(r):
+                ctx.fail(f"eq:segment:nearly-equal:{'reversed' if rev else 'same-order'}", "==", {"moved_end": moved, "by": 2.0**-20, "reversed": rev}, False, e if e is not None else bool(r))
+                return
         a, b, c = (0, 0), (2, 1), (2, 2)
         S = G.Segment(P(G, a), P(G, b))
         tests = [(G.Segment(P(G, b, 2.0), P(G, a, -1.0)), True), (G.Segment(P(G, a), P(G, c)), False), (G.Segment(P(G, a, 3.0), P(G, b)), True)]
